@@ -1,13 +1,13 @@
 CONSTANTS
   MaxCmds = 3
   MaxPending = 2
-  MaxNum = 1
+  MaxNum = 2
   MaxItems = 1
   MaxUid = 1
   MaxCode = 1
-  NFlagSets = 1
-  SyncLit = FALSE
-  Kinds = {"SELECT", "FETCH", "STORE", "UIDFETCH"}
+  NFlagSets = 2
+  SyncLit = TRUE
+  Kinds = {"STATUS", "APPEND", "NOOP", "SELECT"}
   Greetings = {"PREAUTH"}
 INIT Init
 NEXT Next
